@@ -131,6 +131,14 @@ for fl, res, err, d in pmap(cfg_run, CONFIGS, workers=4):
         else: exp = exp.rstrip("\n")
         if pr.stdout.decode() != exp or pr.returncode != 0:
             R.violation("text-form:" + fname, "flags %s: reversing the %s form differs from the transformed plain reversal (exit %d)" % (fl, fname, pr.returncode))
+    # one very long line (a log record embedding the trace with escaped newlines): tokens at every offset around the
+    # 4096-byte boundaries of a buffered reader
+    exp_lines = base.stdout.decode().split("\n")
+    for pad in range(3990, 4110, 7):
+        text = "A" * pad + " " + "\\n".join(t.split("\n"))
+        pr = g.garble(fl, "reverse", ["."], d, input=text.encode()); text_checks += 1
+        if pr.stdout.decode() != "A" * pad + " " + "\\n".join(exp_lines):
+            R.violation("text-form:long-line", "flags %s: a %d-byte line is not reversed like its parts (padding %d)" % (fl, len(text), pad)); break
     for fname, text in {"nothing-obfuscated": "just some text\nmain.notAHash()\n\tfile.go:12 +0x1\n", "empty": "", "binary": "\x00\x01\xff\n\xfe"}.items():
         pr = g.garble(fl, "reverse", ["."], d, input=text.encode("latin1")); text_checks += 1
         if pr.stdout != text.encode("latin1"):
